@@ -169,6 +169,9 @@ def main():
     if ck.replay_arg is None:
         # generated live-range sets through the real use_fast_storage_for_feature_maps / FastStorageComponentAllocator
         sched_outs += sched_lib.stub_fast(ck.rng, 3000 if ck.thorough else 300)
+        # generated operator chains through the real CascadeBuilder.build_cascades, generated ranges through get_temporal_memory_usage
+        sched_outs += sched_lib.stub_builder(ck.rng, 5000 if ck.thorough else 500)
+        sched_outs += sched_lib.stub_tusage(ck.rng, 2000 if ck.thorough else 200)
     sc_stats = sched_lib.stage(ck, outs + sched_outs)
     ck.finish({
         **lr_stats,
